@@ -14,7 +14,7 @@ TRUSTED = ['correspondence harness (pv.engine, pv.proto) and generators of pv.pr
            'Lean driver parser/printer (PygModel/Basic.lean, CmpDriver.lean)']
 ASSUMPTIONS = ['CPython: str(type(x)) names, native < on str/float/datetime/bool, sorted() is a stable sort determined by its comparison outcomes',
                'numpy numbers of EVERY integer / float type (np.integer, np.floating: unsigned, narrow, longlong, float16/32, longdouble - wire NI.<type>: / NF.<type>:, '
-               'the implementation sees the real scalar; since fix 69a8316) / bools / datetime.date are normalised by as_primitive to the python values the wire format identifies them with '
+               'the implementation sees the real scalar; since fix e030b7f) / bools / datetime.date are normalised by as_primitive to the python values the wire format identifies them with '
                '(a law, not only an assumption: numerically equal numbers of every spelling compare 0); '
                'pd.Timestamp and np.str_ are NOT normalised (as_primitive keeps them): they have their own wire spellings TS: / NS: so that the '
                'implementation sees the real objects; the model reads TS: as the datetime cell (cmp ranks a Timestamp with the datetimes since fix 7a44481); np.str_ has no model cell '
